@@ -103,7 +103,8 @@ func runC15(c *Ctx) {
 			okShape := er.results[0] == "nil" && er.results[1] == "nil"
 			var okCond bool
 			for _, g := range er.guards {
-				if g == `!IsQualifiedName(elem(strings.Split(elem($0),",")))` {
+				// IsQualifiedName(d) is ParseQualifiedName(d) succeeding (C07.2): either spelling
+				if g == `!IsQualifiedName(elem(strings.Split(elem($0),",")))` || g == `ParseQualifiedName(elem(strings.Split(elem($0),",")))#3 != nil` {
 					okCond = true
 				}
 			}
